@@ -115,8 +115,11 @@ type Cluster struct {
 	ProduceFaults []string
 	MetaFaults    []string
 	FetchFaults   []string
+	OffsetFaults  []string // ListOffsets: notleader (every block answered NOT_LEADER_FOR_PARTITION), drop
 	// UrgentMetadata: a pending metadata request is answered before anything else happens (see gx.Actor.Urgent).
 	UrgentMetadata bool
+	// MetaDescending: metadata answers list a topic's partitions in descending order (the protocol promises no order)
+	MetaDescending bool
 	// AnswerRank is the default priority class of answer actors.
 	AnswerRank int
 	// MetaVersionCap lowers the metadata response version (0 = use the request's).
@@ -124,6 +127,7 @@ type Cluster struct {
 	gseq              int
 	Groups            map[string]*Group
 	CoordFaults       []string
+	CoordDown         bool // environment state: every coordinator lookup is answered COORDINATOR_NOT_AVAILABLE
 	OffsetFetchFaults []string
 	CommitFaults      []string
 	// CommitGuard lets a group simulation reject commits of stale members/generations
@@ -411,6 +415,13 @@ func (cl *Cluster) Metadata(req *sarama.MetadataRequest) *sarama.MetadataRespons
 			continue
 		}
 		m.AddTopic(t, sarama.ErrNoError)
+		if cl.MetaDescending {
+			rev := make([]*Partition, 0, len(ps))
+			for i := len(ps) - 1; i >= 0; i-- {
+				rev = append(rev, ps[i])
+			}
+			ps = rev
+		}
 		for _, p := range ps {
 			kerr := sarama.ErrNoError
 			if p.Leader < 0 {
